@@ -52,7 +52,7 @@ T1.models[chars] = Model(m_chars, 'chars', assumed=False)
 @T1.inputs
 def _in1(I):
     import cssutils.codec as C
-    I.p.engine.models[C.chars] = Model(m_chars, 'codec.chars (proved separately: finite)', assumed=False)
+    I.p.engine.inline.add(C.chars)  # interpreted from its source (`''.join(chr(byte) for byte in bytestring)` over symbolic bytes)
     return {'input': I.p.fresh('bytes', 'input'), 'final': I.p.fresh('bool', 'final'), 'ext': I.p.fresh('bytes', 'ext'),
             '__args__': None}
 
@@ -328,3 +328,9 @@ def _k5(input, encoding):
 T5.allow_raise(LookupError)
 T5.allow_raise(UnicodeEncodeError)
 T5.native_call = lambda mod, c, m: _try(lambda: mod.encode(c['input'], c['errors'], c['encoding']))
+
+
+# solver budget: the string obligations of these targets are decided by cvc5 in 5-15 s on an idle machine; the limit is sized so that the verdict
+# does not flip to `unknown` when every core is busy
+for _t in (T1, T2, T3, T4, T5):
+    _t.cvc5_ms = 240000
